@@ -10,8 +10,8 @@ for sd in $seeds; do
   if ! (cd $scratch && patch -p1 -s --no-backup-if-mismatch < /verif/seeded/$sd/patch.diff >/dev/null 2>&1); then echo "$sd: PATCH-DOES-NOT-APPLY to current tree" | tee -a seeded/RESULTS.txt; rm -rf $scratch; continue; fi
   for chk in $prop ${EXTRA[$sd]}; do
     [ -f fw/props/$chk.py ] || { echo "$sd: check $chk not built"; continue; }
-    VERIF_TAG=seed VERIF_REPO=$scratch ./check $chk --tier quick > /tmp/seedrun_$sd.$chk.log 2>&1; rc=$?
-    rm -rf build/$chk.seed
+    VERIF_TAG=seed_$sd VERIF_REPO=$scratch ./check $chk --tier quick > /tmp/seedrun_$sd.$chk.log 2>&1; rc=$?
+    rm -rf build/$chk.seed_$sd
     first=$(grep -m1 "^   op=" /tmp/seedrun_$sd.$chk.log | sed -E 's/count=.*//' | cut -c1-170)
     n=$(grep -c "^VIOLATION" /tmp/seedrun_$sd.$chk.log)
     if [ $rc = 1 ]; then echo "$sd: CAUGHT by $chk ($n violation keys) e.g.$first" | tee -a seeded/RESULTS.txt; else echo "$sd: rc=$rc from $chk (not caught) $(grep -m1 -E 'HARNESS|COMPILE' /tmp/seedrun_$sd.$chk.log | cut -c1-120)" | tee -a seeded/RESULTS.txt; fi
